@@ -4,6 +4,7 @@ package main
 
 import (
 	"fmt"
+	"sort"
 	"strings"
 
 	"golang.org/x/tools/go/ssa"
@@ -277,6 +278,31 @@ func runC39(p *Prog, r *Report) {
 			}
 		}
 		r.Check("R3", "shutdownChildren bounds the graceful wait with the grace timer", okSel, p.Pos(shut.Pos()), "no blocking select with a timer channel in the teardown")
+		// the grace period runs once: a timer (or time.After channel) created inside a loop is re-armed by every
+		// iteration - with any other wake-up in the same select (a progress ticker) it never fires, the kill fallback
+		// becomes unreachable and a child that ignores the termination signal is never killed
+		{
+			nt, inLoop := 0, []string{}
+			for _, b := range shut.Blocks {
+				for _, in := range b.Instrs {
+					c, ok := in.(*ssa.Call)
+					if !ok {
+						continue
+					}
+					f := c.Call.StaticCallee()
+					if f == nil || f.Pkg == nil || f.Pkg.Pkg.Path() != "time" || !(f.Name() == "NewTimer" || f.Name() == "After" || f.Name() == "AfterFunc") {
+						continue
+					}
+					nt++
+					if loopHeaderOf(b) != nil {
+						inLoop = append(inLoop, p.Pos(c.Pos()))
+					}
+				}
+			}
+			sort.Strings(inLoop)
+			r.Check("R3", "shutdownChildren arms its grace timer once, outside any loop", nt > 0 && len(inLoop) == 0, p.Pos(shut.Pos()),
+				"timers created inside a loop: "+strings.Join(inLoop, ", ")+" - each iteration starts the grace period again, so the timeout that leads to the kill fallback may never fire")
+		}
 		// every return is preceded by a wait for the children: a direct wg.Wait, or the select's 'graceful' case
 		isGracefulDone := func(in ssa.Instruction) bool { return isSelect(in) }
 		h2, p2 := reachAvoiding(shut, nil, isReturn, orPred(isWGWait, isGracefulDone), nil)
